@@ -60,6 +60,9 @@ def decide_and_report(prop, tier, seed, runs, undecided, known, index, wall, ext
         for f in r.failures:
             if prop in f['props']:
                 failures.append((f, r))
+        for sb in getattr(r.unit, 'skipped_blocks', []) or []:
+            if prop in sb['props'] or not sb['props']:
+                undecided.append('%s: block %s does not compile on this tree (a name its signature returns or renames is gone) and was left out' % (r.name, sb['block']))
         if r.frontend_errors:
             undecided.append('%s: verifier front-end error (code left the supported subset?):\n%s' % (r.name, r.frontend_errors[0]))
         if r.resource_errors:
